@@ -94,4 +94,26 @@ REAL_EQ = Contract(
     ensures=[('finite-values-compare-by-normal-form', 'finite ==> (result == same_form() and not log.floated)')],
     may_raise={'OverflowError': False},
     note='Real.__factors is the callee contract (uninterpreted normal form); float() is an assumed model that records its use')
-CONTRACTS = [FACTORS, REAL_EQ]
+# ---- the stored form of a base-10 value: trailing zeros of the mantissa moved into the exponent --------------------------------
+# (what makes DER of equal decimal values identical, X.690 11.3.1: "mantissa ... shall not have trailing zeros")
+POW10 = z3.RecFunction('pow10r', I, I)
+z3.RecAddDefinition(POW10, [_t], If(_t <= 0, IntVal(1), 10 * POW10(_t - 1)))
+G10 = {'M0': M0, 'B0': B0, 'E0': E0, 'pow10': FnV(lambda ex, k: POW10(toint(k)), 'pow10'),
+       'step10': FnV(lambda ex, k: Implies(toint(k) >= 0, POW10(toint(k) + 1) == 10 * POW10(toint(k))), 'step10'),
+       'base10': FnV(lambda ex: POW10(IntVal(0)) == 1, 'base10')}
+NORMALIZE10 = Contract(
+    id='type.univ::Real.__normalizeBase10[integral-mantissa]', file=U, qual='Real.__normalizeBase10',
+    properties=['C03', 'C04', 'C01'],
+    params=dict(value=PConst(Tup([M0, B0, E0]))), globals=G10,
+    loops={0: Loop(invariant=['m == M0', 'e == E0'], variant='0'),        # a fractional mantissa (a float): not in this contract
+           1: Loop(invariant=['e >= E0', 'm * pow10(e - E0) == M0', '(M0 == 0) == (m == 0)', 'm != 0 or e == E0'],
+                   variant='m if m > 0 else -m', hints=['step10(iter_old(e) - E0)'])},
+    hints=['base10()'],
+    ensures=[
+        ('same-number', 'result[2] >= E0 and result[0] * pow10(result[2] - E0) == M0'),
+        ('no-trailing-zero-left', 'M0 != 0 ==> result[0] % 10 != 0'),
+        ('zero-stays-as-given', 'M0 == 0 ==> (result[0] == 0 and result[2] == E0)'),
+        ('base-kept', 'result[1] == B0')],
+    note='integers are mathematical; a python float as mantissa (the loop that moves the decimal point) is outside: '
+         'float arithmetic is not modelled')
+CONTRACTS = [FACTORS, REAL_EQ, NORMALIZE10]
